@@ -2,6 +2,7 @@ import TantivyModel.Proofs.Merge
 import TantivyModel.Proofs.MergeSteps3
 import TantivyModel.Proofs.MergeWF
 import TantivyModel.Proofs.MergeKeys
+import TantivyModel.Proofs.MergeAssoc
 import TantivyModel.Proofs.MergeMulti5
 /-!
 # C04 — Merging never changes the logical content of the index
@@ -163,6 +164,62 @@ theorem C04_merge_translation_iterated {α} (groups : List (List (Segment α)))
     obtain ⟨g, hg, rfl⟩ := List.mem_map.1 hs
     exact (mergeModel_wf g (hlen g hg) (hpost g hg)).2
 
+/-- MERGE OF MERGES, per-document data: merge every group of sources, then merge the results —
+the stored fields / norms / fast values of the final segment are those of the live documents of
+ALL original sources, in order (the documents component of
+`C04_merge_of_merges`). -/
+theorem C04_merge_of_merges_docs {α} (groups : List (List (Segment α)))
+    (hlen : ∀ g ∈ groups, ∀ s ∈ g, s.docs.length = s.alive.length)
+    (hpost : ∀ g ∈ groups, ∀ s ∈ g, ∀ t ∈ s.terms, postingsOk s.alive.length t.2 = true) :
+    (dump (mergeModel (groups.map mergeModel))).docs = (mergeSpec groups.flatten).docs := by
+  have hwf : ∀ s ∈ groups.map mergeModel, s.docs.length = s.alive.length := by
+    intro s hs
+    obtain ⟨g, hg, rfl⟩ := List.mem_map.1 hs
+    exact (mergeModel_wf g (hlen g hg) (hpost g hg)).1
+  have hflat : ∀ s ∈ groups.flatten, s.docs.length = s.alive.length := by
+    intro s hs
+    obtain ⟨g, hg, hsg⟩ := List.mem_flatten.1 hs
+    exact hlen g hg s hsg
+  rw [mergeModel_docs _ hwf, mergeSpec_docs _ hwf, mergeSpec_docs _ hflat, List.map_map]
+  have : (groups.map ((fun s : Segment α => liveDocs s.docs s.alive) ∘ mergeModel))
+      = groups.map fun g => (g.map fun s => liveDocs s.docs s.alive).flatten := by
+    apply List.map_congr_left
+    intro g hg
+    exact mergeModel_liveDocs g (hlen g hg)
+  rw [this]
+  exact flatten_groups _ groups
+
+/-- MERGE OF MERGES (associativity of merging at the logical level): merge every group of
+sources, then merge the results — the final segment has exactly the logical content of ALL the
+original sources concatenated: live documents in order with their stored fields / norms / fast
+values, and for every term the (doc, tf, positions) of the live documents. By induction on the
+merge tree this is the history invariant "the logical content of the index is the concatenation
+of the logical contents of its segments, and every merge, of fresh or of merged segments,
+preserves it". -/
+theorem C04_merge_of_merges {α} (groups : List (List (Segment α)))
+    (hlen : ∀ g ∈ groups, ∀ s ∈ g, s.docs.length = s.alive.length)
+    (hpost : ∀ g ∈ groups, ∀ s ∈ g, ∀ t ∈ s.terms, postingsOk s.alive.length t.2 = true) :
+    dump (mergeModel (groups.map mergeModel)) = mergeSpec groups.flatten := by
+  have h1 := C04_merge_translation_iterated groups hlen hpost
+  have hd := C04_merge_of_merges_docs groups hlen hpost
+  have ht := mergeSpec_terms_merge_of_merges groups hlen hpost
+  rw [h1] at hd ⊢
+  cases e1 : mergeSpec (groups.map mergeModel) with
+  | mk d1 t1 =>
+    cases e2 : mergeSpec groups.flatten with
+    | mk d2 t2 =>
+      rw [e1, e2] at hd ht
+      simp only at hd ht
+      rw [hd, ht]
+
+/-- per term: the live posting list of every key over the merged groups is the one over all
+original sources -/
+theorem C04_merge_of_merges_postings {α} (groups : List (List (Segment α)))
+    (hlen : ∀ g ∈ groups, ∀ s ∈ g, s.docs.length = s.alive.length)
+    (hpost : ∀ g ∈ groups, ∀ s ∈ g, ∀ t ∈ s.terms, postingsOk s.alive.length t.2 = true) (k : Key) :
+    specPostings k (groups.map mergeModel) = specPostings k groups.flatten :=
+  specPostings_merge_of_merges groups hlen hpost k
+
 /-- Translation of postings, per source (the step `write_postings_for_field` performs for each
 `(term, source)` pair): the posting list of source `s` remapped through the filled old→new table
 is exactly the list of its LIVE postings — tf and positions copied unchanged, doc ids
@@ -245,6 +302,10 @@ example : mergedTermFrom (oldToNew exSegs) [98] 0 exSegs = (1, [⟨1, 1, [5]⟩]
 example : (mergeModel exSegs).docs.length = (mergeModel exSegs).alive.length ∧
     ∀ t ∈ (mergeModel exSegs).terms, postingsOk (mergeModel exSegs).alive.length t.2 = true :=
   C04_merged_wellformed exSegs (by decide) (by decide)
+example : (dump (mergeModel ([exSegs, exSegs.take 1].map mergeModel))).docs = (mergeSpec ([exSegs, exSegs.take 1].flatten)).docs :=
+  C04_merge_of_merges_docs [exSegs, exSegs.take 1] (by decide) (by decide)
+example : dump (mergeModel ([exSegs, exSegs.take 1].map mergeModel)) = mergeSpec ([exSegs, exSegs.take 1].flatten) :=
+  C04_merge_of_merges [exSegs, exSegs.take 1] (by decide) (by decide)
 example : dump (mergeModel ([exSegs, exSegs.take 1].map mergeModel)) = mergeSpec ([exSegs, exSegs.take 1].map mergeModel) :=
   C04_merge_translation_iterated [exSegs, exSegs.take 1] (by decide) (by decide)
 example : dump (mergeModel exSegs) = mergeSpec exSegs :=
